@@ -23,7 +23,7 @@ from fractions import Fraction
 from harness import calls, pool, trace, xl
 from harness.agree import agrees, klass
 
-COLS = 'ABCDEFGHIJKLMNOPQRSTUVWXYZ'
+COLS = [c for c in 'ABCDEFGHIJKLMNOPQRSTUVWXYZ'] + ['A' + c for c in 'ABCDEFGHIJKLMNOPQRSTUVWX']
 RESULT = 'Sheet1!A1'
 
 
@@ -259,7 +259,7 @@ def repro_text(d):
 # code -> spec driver
 # --------------------------------------------------------------------------
 TEXTS = ['x', 'abc', 'N/A', '-', 'foo bar', 'été', 'mar', 'monday', 'inf', 'nan', 'e', '.', 'total:', ' ',
-         'sept', 'Infinity', 'yes', 'T']
+         'sept', 'Infinity', 'yes', 'T', '#N/A', '#DIV/0!', '#REF!']      # (texts that merely SPELL an error code are texts)
 
 
 def N(fr):
@@ -334,6 +334,8 @@ def driver(seed, count):
             ev.append({'f': f, 'args': args, 'lay': [[0, 0]] * n, 'path': path, 'origin': origin})
             continue
         R, C = rng.choice(DIMS), rng.choice(DIMS)
+        if rng.random() < 0.04 and f in ('SUM', 'AVERAGE', 'MIN', 'MAX'):      # more than 255 numbers in one call
+            R, C, pn, pb = rng.choice([16, 17]), rng.choice([16, 17]), 1.0, 0.0
         g = rgrid(rng, R, C, pn, pb, rng.choice([[1], [1, 2, 4], [1, 2, 3, 4, 5, 6]]))
         rects = guillotine(rng, R, C, rng.randint(1, 4))
         if rng.random() < 0.15:       # arbitrary, possibly overlapping, sub-rectangles
